@@ -1,3 +1,11 @@
+"""Ghost code for the zone kernel (unit zone)."""
+from civil_loops import use, cut
+
 LOOPS = {}
 GHOST = {}
 HOOKS = {}
+
+EP = 'USE(lemma_epoch_REQ(), lemma_epoch_ENS(), "epoch");'
+HOOKS['LocalTime_TransitionType'] = [(r'return \{', EP + "\n" +
+    use('secrepr', ['EPOCHSEC + (Z)unix_time']) + "\n" + use('secrepr', ['EPOCHSEC + (Z)unix_time + (Z)(*tt).utc_offset']))]
+HOOKS['LocalTime_Transition'] = [(r'const TransitionType & tt', use('secrepr', ['OSEC((*tr).civil_sec) + ((Z)unix_time - (Z)(*tr).unix_time)']))]
